@@ -1,7 +1,7 @@
 #!/usr/bin/env python3
 """Sensitivity runner: applies each listed one-line mutation to /repo, runs the named check (quick), restores /repo.
 usage: mutrun.py [tsv] [filter-substring]"""
-import subprocess, sys, os, time
+import subprocess, sys, os, time, fcntl
 tsv = sys.argv[1] if len(sys.argv) > 1 else '/verif/tools/mutants.tsv'
 flt = sys.argv[2] if len(sys.argv) > 2 else ''
 env = dict(os.environ, GOFLAGS='-mod=mod', GOPROXY='off', GOSUMDB='off', GOTOOLCHAIN='local')
@@ -11,6 +11,7 @@ for line in open(tsv):
     pid, f, old, new = line.split('\t')
     if flt and flt not in line: continue
     old = old.replace('\\n', '\n').replace('\\t', '\t'); new = new.replace('\\n', '\n').replace('\\t', '\t')
+    lk = open('/tmp/repo.lock', 'w'); fcntl.flock(lk, fcntl.LOCK_EX)
     if subprocess.run(['git', '-C', '/repo', 'diff', '--quiet']).returncode != 0:
         print('repo dirty'); sys.exit(9)
     p = os.path.join('/repo', f)
@@ -28,3 +29,4 @@ for line in open(tsv):
         print(f'{pid} rc={r.returncode} {time.time()-t0:.0f}s  {old[:50]!r} -> {new[:50]!r} :: {(v[0][:160] if v else r.stdout[-200:])}', flush=True)
     finally:
         subprocess.run(['git', '-C', '/repo', 'checkout', '--', '.'])
+        fcntl.flock(lk, fcntl.LOCK_UN); lk.close()
